@@ -33,9 +33,14 @@ def main():
   if st.strip():
     print('REPO NOT CLEAN', st)
     sys.exit(2)
+  phase = os.environ.get('SEED_PHASE', 'both')      # claims | checks | both
+  claims = os.path.join(d, 'claims.json')
+  if phase == 'checks':
+    out.update(json.load(open(claims)))
+    return run_checks(out, patch, checks)
   wt = tempfile.mkdtemp(prefix='seedwt-')
   os.rmdir(wt)
-  sh(['git', '-C', REPO, 'worktree', 'add', '-q', wt, 'HEAD'])
+  sh(['git', '-C', REPO, 'worktree', 'add', '-q', '--detach', wt, 'HEAD'])
   try:
     env = dict(os.environ, PYTHONPATH=wt)
     rc, o = sh([PY, demo], cwd='/tmp', env=env, timeout=600)
@@ -56,7 +61,15 @@ def main():
     out['suite_tail'] = o.strip().split('\n')[-1][-200:]
   finally:
     sh(['git', '-C', REPO, 'worktree', 'remove', '--force', wt])
-  # now the checks against /repo itself
+  json.dump(out, open(claims, 'w'), indent=1)
+  if phase == 'claims':
+    print(json.dumps(out, indent=1))
+    return
+  run_checks(out, patch, checks)
+
+
+def run_checks(out, patch, checks):
+  # the checks against /repo itself
   rc, o = sh(['git', '-C', REPO, 'apply', patch])
   try:
     res = {}
